@@ -69,6 +69,29 @@ def run(ctx):
         yt = torch.tensor(ys, dtype=torch.complex64)
         hard = [[int(v) for v in r] for r in dem(yt).reshape(len(ys), -1).tolist()]
         ctx.count("hard-decisions", len(ys))
+        # the same received points held as a transposed / permuted view (non-contiguous strides): same decisions and LLRs
+        if len(ys) >= 36:
+            for vshape, mkview in (((4, 9), lambda t: t.t().contiguous().t()), ((2, 3, 6), lambda t: t.transpose(0, 1).contiguous().transpose(0, 1)), ((2, 3, 6), lambda t: t.transpose(1, 2).contiguous().transpose(1, 2))):
+                yc_ = yt[:36].reshape(vshape).clone()
+                yv_ = mkview(yc_)
+                if yv_.is_contiguous():
+                    continue
+                try:
+                    hv, hc = dem(yv_), dem(yc_)
+                    sv, sc_ = dem(yv_, noise_var=0.7), dem(yc_, noise_var=0.7)
+                except Exception:
+                    ctx.count("views-rejected")
+                    continue
+                ctx.count("view-cases")
+                if hv.shape != hc.shape or not torch.equal(hv, hc):
+                    nbad = int((hv != hc).sum()) if hv.shape == hc.shape else -1
+                    ctx.violation(key % "view/hard", "%s(%s): received points of shape %s held with strides %s: %d hard bits differ from the same points held contiguously" % (name, cfg, vshape, tuple(yv_.stride()), nbad),
+                                  dict(rep, shape=list(vshape), strides=list(yv_.stride())))
+                    break
+                if sv.shape != sc_.shape or not torch.allclose(sv, sc_, rtol=1e-4, atol=1e-5):
+                    ctx.violation(key % "view/soft", "%s(%s): received points of shape %s held with strides %s: LLRs differ from the same points held contiguously" % (name, cfg, vshape, tuple(yv_.stride())),
+                                  dict(rep, shape=list(vshape), strides=list(yv_.stride())))
+                    break
         # S: nearest point, margin-aware
         amb = []
         for y, h in zip(ys, hard):
